@@ -324,7 +324,9 @@ static void op_dec(int tagonly)
     int alias = (int)kvi("alias", 0);
     int pf = (int)kvi("pf", 0xA5);
     gbuf k, n, ad, c, m;
-    size_t mlen = (size_t)-1;
+    /* *mlen is an output: whatever the caller's variable held before must not matter (mlen0=: -1 SIZE_MAX, else the value) */
+    long mlen0 = kvi("mlen0", -1);
+    size_t mlen = mlen0 < 0 ? (size_t)-1 : (size_t)mlen0;
     gvalue(&k, "key", kv("k", "-"), 3);
     gvalue(&n, "nonce", kv("n", "-"), 4);
     gvalue(&ad, "ad", kv("ad", "-"), 2);
@@ -412,7 +414,7 @@ static void op_dec(int tagonly)
         jbytes("c", ccopy, c.len);
     }
     jint("res", res);
-    jint("mlen", mlen == (size_t)-1 ? -1 : (long)mlen);
+    jint("mlen", mlen == (size_t)-1 ? -1 : (long)mlen); jint("mlen0", mlen0);
     jbytes("mout", mp ? mp : m.p, outlen);
     jint("untouched", untouched); jint("alias", alias); jint("inmod", inmod);
     jint("canary", gcanary(&c) && gcanary(&m) && gcanary(&ad) && gcanary(&k) && gcanary(&n) && gcanary(&both) && gcanary(&arena));
@@ -619,21 +621,35 @@ static void op_hash(void)
     gro(&m);
     long vg0 = VG_ERRORS();
     SECRET(m.p, m.len);
+    int inplace = (int)kvi("inplace", 0);
+    gbuf ip; memset(&ip, 0, sizeof(ip));
+    if (inplace) {      /* the digest overwrites the start of the message (out == in) */
+        grw(&m);
+        galloc(&ip, "inplace", m.len > 32 ? m.len : 32, g_place, 0);
+        memset(ip.p, (int)kvi("pf", 0xA5), ip.len); if (m.len) memcpy(ip.p, m.p, m.len);
+        tinyjambu_hash(ip.p, ip.p, m.len);
+        memcpy(out.p, ip.p, 32);
+        gro(&m);
+    } else
     tinyjambu_hash(out.p, gptr(&m), m.len);
     PUBLIC(m.p, m.len); PUBLIC(out.p, 32);
     long vgerr = VG_ERRORS() - vg0;
     grw(&m);
+    int ipok = 1;
+    if (inplace) { for (size_t i = 32; i < ip.len; i++) if (ip.p[i] != mc[i]) ipok = 0; ipok = ipok && gcanary(&ip); gfree(&ip); }
     jbegin("Hash");
     if (m.len <= BIGLOG) jbytes("m", mc, m.len); else { jstr("mspec", kv("m", "-")); jint("mlen", (long)m.len); }
-    jbytes("out", out.p, 32); jint("inmod", !inputs_same(&m, mc)); jint("canary", gcanary(&out) && gcanary(&m));
-    jint("taint", vgerr); jend();
+    jbytes("out", out.p, 32); jint("inmod", !inputs_same(&m, mc)); jint("canary", gcanary(&out) && gcanary(&m) && ipok);
+    jint("taint", vgerr); jint("inplace", inplace); jend();
     free(mc); gfree(&m); gfree(&out);
 }
 static void op_hinit(int re)
 {
     gbuf *o = getobj(hashobj, "hashstate", sizeof(tinyjambu_hash_state_t));
+    long vg0 = VG_ERRORS();
     if (re) tinyjambu_hash_reinit((tinyjambu_hash_state_t *)o->p); else tinyjambu_hash_init((tinyjambu_hash_state_t *)o->p);
-    emit_obj(re ? "HReinit" : "HInit", o); jend();
+    long vgerr = VG_ERRORS() - vg0;
+    emit_obj(re ? "HReinit" : "HInit", o); jint("taint", vgerr); jend();
 }
 static void op_hupdate(void)
 {
@@ -666,8 +682,10 @@ static void op_hfinal(void)
 static void op_hfree(void)
 {
     gbuf *o = getobj(hashobj, "hashstate", sizeof(tinyjambu_hash_state_t));
+    long vg0 = VG_ERRORS();
     tinyjambu_hash_free((tinyjambu_hash_state_t *)o->p);
-    emit_obj("HFree", o); jint("size", (long)o->len); jint("nonzero", (long)nonzero(o->p, o->len)); jend();
+    long vgerr = VG_ERRORS() - vg0;
+    emit_obj("HFree", o); jint("size", (long)o->len); jint("nonzero", (long)nonzero(o->p, o->len)); jint("taint", vgerr); jend();
 }
 
 static void op_hmac(void)
@@ -680,13 +698,22 @@ static void op_hmac(void)
     gro(&k); gro(&m);
     long vg0 = VG_ERRORS();
     SECRET(k.p, k.len); SECRET(m.p, m.len);
+    int inplace = (int)kvi("inplace", 0), ipok = 1;
+    if (inplace) {      /* the tag overwrites the start of the message (out == in) */
+        gbuf ip; galloc(&ip, "inplace", m.len > 32 ? m.len : 32, g_place, 0);
+        memset(ip.p, (int)kvi("pf", 0xA5), ip.len); if (m.len) memcpy(ip.p, mc, m.len);
+        tinyjambu_hmac(ip.p, gptr(&k), k.len, ip.p, m.len);
+        memcpy(out.p, ip.p, 32);
+        for (size_t i = 32; i < ip.len; i++) if (ip.p[i] != mc[i]) ipok = 0;
+        ipok = ipok && gcanary(&ip); gfree(&ip);
+    } else
     tinyjambu_hmac(out.p, gptr(&k), k.len, gptr(&m), m.len);
     PUBLIC(k.p, k.len); PUBLIC(m.p, m.len); PUBLIC(out.p, 32);
     long vgerr = VG_ERRORS() - vg0;
     grw(&k); grw(&m);
     jbegin("Hmac"); jbytes("k", kc, k.len); jbytes("m", mc, m.len); jbytes("out", out.p, 32);
     jint("inmod", !(inputs_same(&k, kc) && inputs_same(&m, mc)));
-    jint("canary", gcanary(&out) && gcanary(&k) && gcanary(&m)); jint("taint", vgerr); jend();
+    jint("canary", gcanary(&out) && gcanary(&k) && gcanary(&m) && ipok); jint("taint", vgerr); jint("inplace", inplace); jend();
     free(kc); free(mc); gfree(&k); gfree(&m); gfree(&out);
 }
 static void op_hminit(int re)
@@ -738,8 +765,10 @@ static void op_hmfinal(void)
 static void op_hmfree(void)
 {
     gbuf *o = getobj(hmacobj, "hmacstate", sizeof(tinyjambu_hmac_state_t));
+    long vg0 = VG_ERRORS();
     tinyjambu_hmac_free((tinyjambu_hmac_state_t *)o->p);
-    emit_obj("HmFree", o); jint("size", (long)o->len); jint("nonzero", (long)nonzero(o->p, o->len)); jend();
+    long vgerr = VG_ERRORS() - vg0;
+    emit_obj("HmFree", o); jint("size", (long)o->len); jint("nonzero", (long)nonzero(o->p, o->len)); jint("taint", vgerr); jend();
 }
 
 /* hkdf len= key= salt= info= : one-shot */
@@ -807,8 +836,10 @@ static void op_hkexpand(void)
 static void op_hkfree(void)
 {
     gbuf *o = getobj(hkdfobj, "hkdfstate", sizeof(tinyjambu_hkdf_state_t));
+    long vg0 = VG_ERRORS();
     tinyjambu_hkdf_free((tinyjambu_hkdf_state_t *)o->p);
-    emit_obj("HkFree", o); jint("size", (long)o->len); jint("nonzero", (long)nonzero(o->p, o->len)); jend();
+    long vgerr = VG_ERRORS() - vg0;
+    emit_obj("HkFree", o); jint("size", (long)o->len); jint("nonzero", (long)nonzero(o->p, o->len)); jint("taint", vgerr); jend();
 }
 
 #ifdef TJD_WRAP_HMAC
@@ -1052,16 +1083,20 @@ static void op_plimit(void)
     gbuf *o = getobj(prngobj, "prngstate", sizeof(tinyjambu_prng_state_t));
     size_t lim = (size_t)strtoull(kv("limit", "1024"), NULL, 0);
     ncalls = 0;
+    long vg0 = VG_ERRORS();
     tinyjambu_prng_set_reseed_limit((tinyjambu_prng_state_t *)o->p, lim);
+    long vgerr = VG_ERRORS() - vg0;
     /* limits are logged in two halves: TLC integers are 32-bit */
-    emit_obj("PLimit", o); jint("lo", (long)(lim & 0xFFFFFF)); jint("hi", (long)((lim >> 24) & 0xFFFFFF));
+    emit_obj("PLimit", o); jint("taint", vgerr); jint("lo", (long)(lim & 0xFFFFFF)); jint("hi", (long)((lim >> 24) & 0xFFFFFF));
     jint("top", (long)(lim >> 48)); jentropy(); jend();
 }
 static void op_pfree(void)
 {
     gbuf *o = getobj(prngobj, "prngstate", sizeof(tinyjambu_prng_state_t));
+    long vg0 = VG_ERRORS();
     tinyjambu_prng_free((tinyjambu_prng_state_t *)o->p);
-    emit_obj("PFree", o); jint("size", (long)o->len); jint("nonzero", (long)nonzero(o->p, o->len)); jend();
+    long vgerr = VG_ERRORS() - vg0;
+    emit_obj("PFree", o); jint("size", (long)o->len); jint("nonzero", (long)nonzero(o->p, o->len)); jint("taint", vgerr); jend();
 }
 
 /* deadstate kind=hash|hmac|hkdf|pbkdf2 m= key= salt= info= len= :
@@ -1194,7 +1229,7 @@ static void op_reset(void)
 
 int main(void)
 {
-    static char line[1 << 22];
+    static char line[1 << 23];      /* a 2 MiB message is 4 MiB of hex */
     struct sigaction sa;
     memset(&sa, 0, sizeof(sa));
     sa.sa_sigaction = on_fault;
